@@ -41,6 +41,33 @@ CHECKS = {
  "C14": dict(tech="bounded exhaustive enumeration of integer relation matrices + explicit-state BFS over unimodular operations from diagonal seeds; oracle = determinantal divisors",
    text="Every exponent matrix in the listed shape/entry bounds with 9 metamorphic variants each; every matrix reachable from diagonal seeds by <= d elementary unimodular operations must keep the seed's invariants; D-symbol fundamental-group presentations.",
    note="Trusts R6 (gcd of minors; i128 elimination with overflow detection for larger shapes, cross-checked on small ones).", ref="3/C14"),
+ "C05": dict(tech="bounded exhaustive enumeration of connected symbols x sheet bounds; covering maps searched by the reference model, cover counts against a homomorphism-counting oracle on the textbook pi1 presentation",
+   text="Every labeled symbol (dim 2 size <= 3, dim 3 size <= 2) and class representatives above that, every sheet bound k <= 3/4: each returned cover is valid, connected and admits a verified covering map with equal fibres; oriented cover has 1/2 sheets; universal cover has |G| sheets (reference Todd-Coxeter); number of covers per sheet number = number of subgroup classes (class counter on the textbook presentation, independent of the crate's group code); pairwise inequivalence; subgroup_cover for all short word sets.",
+   note="Trusts R1, R4, R5, R11. Inequivalence uses the documented sheet layout only after verifying it is a covering map.", ref="3/C05"),
+ "C07": dict(tech="bounded exhaustive enumeration of (D-set, geometry); oracle = depth-first enumeration of ALL branching vectors up to a provably sufficient bound, modulo the brute-force automorphism group",
+   text="Every D-set from DSets(2, <= 8/11) and every relabeling of those of size <= 4, all four geometries: outputs on the input set, complete, degree >= 3, right curvature sign, consecutively numbered, and in bijection with the oracle's classes of euclidean / minimally hyperbolic / good spherical branching vectors; 'all' is the disjoint union.",
+   note="Trusts R1 and the definition-based orbifold computation; the list of good spherical orbifolds is copied from the statement's fixed list. DSets supplies the D-sets (C06).", ref="3/C07"),
+ "C08": dict(tech="bounded exhaustive enumeration of labeled 2D symbols x branching vectors over {1,2,3,4,5,11}; oracles: curvature from the definition, Conway-symbol parser for Gauss-Bonnet, definition-based orbifold for the predicates",
+   text="All labeled connected 2D symbols of size <= 4 (every renumbering) and class representatives of size 5 (7): curvature definition, Gauss-Bonnet through the parsed orbifold symbol, invariance under renumbering and dualisation (corner lists up to rotation and reversal), curvature of verified covers = sheets x curvature, the three predicates.",
+   note="Trusts R1, R2. Covers are only supplies; sheet numbers come from the reference model's verified covering map.", ref="3/C08"),
+ "C09": dict(tech="bounded exhaustive enumeration of symbols; structural clauses read off the result, group clauses against a textbook presentation via invariant factors, subgroup class counts, reference Todd-Coxeter orders and a verified base-point-change isomorphism",
+   text="All labeled 2D/3D symbols of size <= 3, their harness-built 2-sheeted covers (size <= 2 bases), all DSyms outputs over DSets(2, <= 6/8): generator/facet/inverse/reducedness/cone clauses; H1, class counts to index 3/4, finite order (4/K for good spherical), and for finite groups a verified isomorphism with the textbook group.",
+   note="Trusts R3, R4, R5, R6, R11. Class counts are skipped (and counted) when (n!)^generators > 2e6.", ref="3/C09"),
+ "C15": dict(tech="bounded exhaustive enumeration of euclidean 2D symbols and admissible 3D symbols (with all relabelings and duals) plus the corpus; cover clauses by the reference model, H1 by textbook presentation + invariant factors",
+   text="Every curvature-0 2D symbol over all D-set classes of size <= 5/7 and branching 1..6; every admissible 3D symbol of size <= 3/4 under every relabeling and its dual; the 20 corpus symbols: existence, covering, orientedness, branch-freeness, H1 = Z^2 / Z^3, admissible sheet number, invariance of existence and sheet number, corpus found.",
+   note="Trusts R1, R6, R11 and the definition-based sphericity test for tiles and vertex figures.", ref="3/C15"),
+ "C16": dict(tech="bounded exhaustive enumeration of inputs x deviation-bounded exhaustive exploration (bound 1; 2 on small inputs at the thorough tier) of the hash-order choice point in simplify through a cfg hook; every schedule replayed for determinism",
+   text="Pseudo-toroidal covers of all admissible symbols of size <= 3/4 and of the corpus, Coxeter manifold tilings and manifold covers with finite group, under systematic renumberings; for every explored schedule: result validity as a manifold tiling, preserved H1 and subgroup profile where the statement demands it, reducedness on pseudo-toroidal covers, and one minimal-quotient class for the corpus across renumberings and schedules.",
+   note="Trusts R1, R6, R11, the choice hook (sorted candidates, every candidate reachable by some hash order) and, for the index-2/3 subgroup profile, the crate's presentation + low-index enumeration (C09/C12).", ref="3/C16"),
+ "C17": dict(tech="bounded exhaustive enumeration of admissible 3D symbols x deviation-bounded exhaustive exploration (bound 1) of the simplify choice point; verdict invariance over relabelings, dual and verified covers; independent re-derivation of every yes",
+   text="Every admissible 3D symbol of size <= 3/4 and the corpus: a verdict under every schedule with <= 1 deviation, equal verdict class for all relabelings and the dual, no yes/no contradiction with any verified cover of <= 2/3 sheets, certificate of every yes (finite oriented branch-free cover, H1 = Z^3, 7/13 subgroup classes), corpus = yes.",
+   note="Cannot re-derive the completeness of the space-group invariant table. Trusts R1, R6, R11; the 7/13 counts use the crate's low-index enumeration (C12).", ref="3/C17"),
+ "C18": dict(tech="bounded exhaustive enumeration of integer matrices (all shapes <= 3x3 over [-2,2], sparse 4x4, big-entry families, unimodular walk to 6x6) x right-hand sides x 8 backends; oracle = exact BigInt arithmetic with minors / Laplace / Cramer",
+   text="rank, determinant, null space, inverse and solve for i64, BigRational and six prime fields through VecMatrix and (by hook) the const-generic Matrix; residue-class field axioms and canonical representatives incl. negative multiples of P; p-adic solver against Cramer's rule.",
+   note="Trusts num-bigint/num-rational arithmetic and the reference algorithms (different from elimination). i64 solve is only required to be sound.", ref="3/C18"),
+ "C19": dict(tech="bounded exhaustive enumeration of graphs: all digraphs on <= 4 vertices (+5 vertices <= 6 edges; thorough all), all forward digraphs / undirected graphs on 6 (7) vertices, every ordered source-sink pair, four entry points; oracle = subset enumeration",
+   text="Cut separates, has minimum size (minimum over all vertex subsets), no repeats, avoids source and sink; inside + source = reachable set. The forward/undirected family is there because flow cancellation is never exercised on <= 4 vertices.",
+   note="Trusts the subset-enumeration oracle. Vertices that touch no edge are outside the domain.", ref="3/C19"),
  "C20": dict(tech="explicit-state model checking with stateright: BFS to the fixpoint over real Partition/IntPartition instances keyed by a snapshot of their internal forests, plus exhaustive DFS of all histories to depth 5/6 observed only through the public API",
    text="Complete reachable state space of two instances (original + clone) over a 3-element (thorough: 4-element) universe for both partition types in lock-step with a naive partition; state and transition predicates for every clause of the statement; hook-free history enumeration as a cross-check.",
    note="Trusts the naive reference partition; fixpoint mode trusts the cfg-gated verif_snapshot hook to expose the internal arrays (the history mode does not use it).", ref="3/C20"),
